@@ -283,7 +283,17 @@ pub fn conc_case(seed: u64, threads: usize, ops: usize) -> Vec<String> {
             let mut viol = Vec::new();
             let mut stats = Vec::new();
             for i in 0..ops {
-                if i % 5 == 0 {
+                if t == 0 && seed % 2 == 0 {
+                    // one thread keeps asking for an interface that is refused with a panic under the template
+                    // lock, while the others create connections
+                    let probe = crate::abi::refused_interface_probe();
+                    if probe.starts_with("(ok") {
+                        viol.push("refused-interface-accepted".to_string());
+                    }
+                    std::thread::yield_now();
+                    continue;
+                }
+                if i % 5 == 0 || (seed % 2 == 0 && i % 2 == 0) {
                     // a connection of this thread's own (the template is cached after the first)
                     match new_env() {
                         Ok(env) => {
